@@ -230,6 +230,9 @@ pub struct ReqRec {
     pub inline: bool,
     /// true if the effect was applied to the visible file (ok writes/punches)
     pub applied: bool,
+    /// position in the fault numbering (requests to the fault file, in
+    /// completion order)
+    pub ord: Option<usize>,
 }
 
 struct Slot {
@@ -703,6 +706,7 @@ impl Core {
             buf_addr,
             inline: false,
             applied: false,
+            ord: None,
         });
         // early visibility of writes: apply to the visible content now
         if kind == ReqKind::Write
@@ -732,6 +736,7 @@ impl Core {
             if file == fp.fault_file {
                 let ord = self.fault_ordinal.get();
                 self.fault_ordinal.set(ord + 1);
+                self.reqs.borrow_mut()[idx].ord = Some(ord);
                 if fp.fail_ordinals.contains(&ord) {
                     fail = Some("sim: injected I/O error");
                 }
